@@ -23,8 +23,10 @@ CONSTANTS MaxSteps,   \* worlds per history
 
 GwGroup == "gateway.networking.k8s.io"
 
-Classes   == {"ours", "ours2", "foreign", "missing"}   \* ours2: a second GatewayClass of this controller
-Ours      == {"ours", "ours2"}
+(* ours2: a second GatewayClass of this controller.  own3 / gone3 / alien3: the gateway names the class haproxy3, which
+   exists and is ours / does not exist (any more) / belongs to another controller -- one name, changing over a history *)
+Classes   == {"ours", "ours2", "foreign", "missing", "own3", "gone3", "alien3"}
+Ours      == {"ours", "ours2", "own3"}
 Protos    == {"HTTP", "TCP"}
 (* kinds: no entry; an entry for one kind / both / another kind of the gateway group (group not set); CoreGroup: entries for both
    kinds with group "" (the core group, not the Gateway API one); GwGroup: both kinds with the gateway group spelled out *)
@@ -49,10 +51,13 @@ BackSeqs  == { <<[s |-> 1, w |-> -1]>>,
                <<[s |-> 2, w |-> 200], [s |-> 3, w |-> 1]>>,
                \* s = 9: a Service that does not exist -- the reference is skipped, the others keep their own weights
                <<[s |-> 9, w |-> 1], [s |-> 1, w |-> 3], [s |-> 2, w |-> 1]>>,
-               <<[s |-> 3, w |-> 5], [s |-> 9, w |-> 9], [s |-> 1, w |-> 1]>> }
+               <<[s |-> 3, w |-> 5], [s |-> 9, w |-> 9], [s |-> 1, w |-> 1]>>,
+               \* s = 8: a Service without ready endpoints -- the rule keeps its (empty) backend
+               <<[s |-> 8, w |-> -1]>>,
+               <<[s |-> 8, w |-> 2], [s |-> 2, w |-> 2]>> }
 
 (* replicas behind a backendRef *)
-ReplOf(s) == IF s = 9 THEN 0 ELSE s
+ReplOf(s) == IF s \in {8, 9} THEN 0 ELSE s
 
 Listener == [proto : Protos, host : {"own", "none"}, kinds : KindsVals, from : FromVals]
 Ref      == [name : RefNames, ns : RefNs, section : Sections, kind : RefKinds, group : RefGroups]
@@ -208,12 +213,20 @@ ConflictWorlds ==
         b1 \in {<<[s |-> 1, w |-> 3], [s |-> 2, w |-> -1]>>, <<[s |-> 3, w |-> 2], [s |-> 2, w |-> 2]>>},
         b2 \in {<<[s |-> 2, w |-> -1], [s |-> 1, w |-> 4], [s |-> 3, w |-> -1]>>, <<[s |-> 1, w |-> -1]>>}}
 
+(* one parentRef per listener of the same gateway *)
+SectionWorlds ==
+    {[World0 EXCEPT !.l = <<OpenL(p1), OpenL(p2)>>,
+                    !.rt = <<MkRoute(k, n, <<[PlainRef EXCEPT !.section = s1], [PlainRef EXCEPT !.section = s2]>>, hn, b), NoRoute>>] :
+        p1 \in Protos, p2 \in Protos, k \in RouteKinds, n \in RouteNs, s1 \in Sections, s2 \in Sections, hn \in 0..1,
+        b \in {<<[s |-> 1, w |-> -1]>>, <<[s |-> 8, w |-> -1]>>}}
+
 Init ==
     /\ hist = <<>> /\ nmut = 0
     /\ CASE Mode = "walk" -> w = World0
          [] Mode = "resolve" -> w \in ResolveWorlds
          [] Mode = "listener" -> w \in ListenerWorlds
          [] Mode = "conflict" -> w \in ConflictWorlds
+         [] Mode = "sections" -> w \in SectionWorlds
 
 Mutate(x) == w' = x /\ x # w /\ Valid(x) /\ nmut' = nmut + 1 /\ UNCHANGED hist
 
